@@ -88,7 +88,16 @@ func (t *c06Tap) Handle(ctx *context.Context) string {
 	case "c06tapa":
 		rec.reached++
 		rec.tA = time.Now()
+		// other requests that are between the tap and the Validator's verdict right now
+		for _, o := range c.recs {
+			if o != rec && o.inside {
+				o.overlap++
+				rec.overlap++
+			}
+		}
+		rec.inside = true
 	case "c06tapb":
+		rec.inside = false
 		rec.passed++
 		if req.IsStream() {
 			b, err := io.ReadAll(req.GetPayload())
@@ -104,6 +113,7 @@ func (t *c06Tap) Handle(ctx *context.Context) string {
 		resp.SetPayload([]byte("c06-let-through"))
 		ctx.SetOutputResponse(resp)
 	case "c06taprej":
+		rec.inside = false
 		rec.invalid++
 		rec.tags = ctx.Tags()
 	}
@@ -128,6 +138,8 @@ type c06Rec struct {
 	authUser  string
 	tags      string
 	panicMsg  string
+	inside    bool // between the tap before the Validator and the Validator's verdict
+	overlap   int  // how many other requests were inside the Validator together with this one
 }
 
 type c06Chain struct {
